@@ -15,11 +15,24 @@ def ownership(facts, rep):
         if f.cls_qn != 'sonic_json::Parser' or f.short != 'parseLazyImpl':
             continue
         rep.fn(f)
-        alloc = [v for bid, i, s in f.stmts() if strip(s).get('k') == 'decl' for v in strip(s)['vars'] if v['name'] == 'allocated']
+        # the ownership flag by role: the bool local handed to the handler's Key(data, size, owned) event
+        alloc = []
+        for _b, _i, _s, e_ in f.walk():
+            if e_.get('k') == 'call' and e_.get('cname') == 'Key' and len(e_.get('args', [])) == 3:
+                a_ = strip(e_['args'][2])
+                if a_ is not None and a_.get('k') == 'ref' and a_.get('dk') == 'local':
+                    alloc.append(a_)
         rep.require(len(alloc) >= 1, 'C20: ownership flag not found in %s' % f.name)
         if not alloc:
             continue
         aid = alloc[0]['id']
+        # ... and the decode error by role: the variable parseStringInplace reports through
+        err_ids = set()
+        for _b, _i, _s, e_ in f.walk():
+            if e_.get('k') == 'call' and e_.get('cname') == 'parseStringInplace' and len(e_.get('args', [])) >= 2:
+                a_ = strip(e_['args'][1])
+                if a_ is not None and a_.get('k') == 'ref':
+                    err_ids.add(a_.get('id'))
 
         def gen_stmt(s):
             out = []
@@ -85,8 +98,8 @@ def ownership(facts, rep):
             s_ = strip(s)
             if s_.get('k') == 'ret':
                 v = strip(s_.get('e'))
-                names = [x.get('name') for x in walk(s_) if x.get('k') == 'ref']
-                if 'err' in names:
+                names = [x.get('id') for x in walk(s_) if x.get('k') == 'ref']
+                if err_ids & set(names):
                     st = M.at(bid, i)
                     key = ('ret', locline(s_['loc']))
                     if st is None or key in seen:
